@@ -12,7 +12,7 @@ out=/verif/seeded/$sid; mkdir -p "$out"; cp "$src/patch.diff" "$out/"; cp -r "$s
 cd "$wt"
 demo_path=$(python3 -c "import json;print(json.load(open('$src/meta.json'))['demo_path_in_repo'])")
 demo_cmd=$(python3 -c "import json;print(json.load(open('$src/meta.json'))['demo_cmd'])")
-demo_file=$(ls "$src"/demo/* | head -1)
+demo_files=$(find "$src/demo" -type f)
 pkgs=$(grep '^+++ b/' "$src/patch.diff" | sed 's|+++ b/||' | xargs -n1 dirname | sort -u | sed 's|^|./|' | tr '\n' ' ')
 log="$out/confirm.log"; : > "$log"
 res() { echo "$1" | tee -a "$log"; }
@@ -22,13 +22,14 @@ t0=$(date +%s)
 go test -vet=off -count=1 -timeout 20m $pkgs 2>&1 | grep -E "^(ok|FAIL|---|panic)" | grep -v "should_fail_with_permission_denied" >> "$log"
 existing_fail=$(grep -E "^--- FAIL" "$log" | grep -v TestImmudbStoreEdgeCases | wc -l)
 res "existing tests of $pkgs with patch: failing tests (besides the root-only permission test) = $existing_fail ($(( $(date +%s)-t0 )) s)"
-mkdir -p "$(dirname "$demo_path")"; cp "$demo_file" "$demo_path"
+mkdir -p "$(dirname "$demo_path")"; placed=""
+for f in $demo_files; do cp "$f" "$(dirname "$demo_path")/$(basename "$f")"; placed="$placed $(dirname "$demo_path")/$(basename "$f")"; done
 ( timeout 300 bash -c "$demo_cmd" ) >>"$log" 2>&1; with=$?
 res "demo with patch: exit $with (expected non-zero)"
 git apply -R "$src/patch.diff"
 ( timeout 300 bash -c "$demo_cmd" ) >>"$log" 2>&1; without=$?
 res "demo without patch: exit $without (expected 0)"
-rm -f "$demo_path"
+rm -f $placed
 git apply "$src/patch.diff"
 # run the checks against the patched scratch tree
 detected=""
